@@ -114,7 +114,8 @@ PROPS = {
         "assumptions": ["scripts of fewer than 2^32 lines (`num as u32 + 1`)"],
     },
     "C01": {
-        "runs": [{"profile": "c01", "n_quick": 20000, "n_thorough": 500000}],
+        "runs": [{"profile": "c01", "n_quick": 20000, "n_thorough": 500000},
+                 {"profile": "c17lib", "n_quick": 300, "n_thorough": 10000, "nontrivial": "any"}],
         "observable": "verdict, failure kind and the reported actual/err payload of Runner::run_multi on a one-record script",
         "explanation": "random: every expectation form x answer family (exact / whitespace-relaid / value changed / line removed, added, swapped / wrong kind / wrong types) x file-level sort, result mode, threshold, strict|default column check",
     },
@@ -146,14 +147,16 @@ PROPS = {
     },
     "C11": {
         "runs": [{"profile": "c11", "n_quick": 3000, "n_thorough": 3000, "exhaustive": True, "oracle": "c11"},
-                 {"profile": "climulti", "kind": "cli", "n_quick": 25, "n_thorough": 400, "nontrivial": "any"}],
+                 {"profile": "climulti", "kind": "cli", "n_quick": 25, "n_thorough": 400, "nontrivial": "any"},
+                 {"profile": "c17lib", "n_quick": 300, "n_thorough": 10000, "nontrivial": "any"}],
         "observable": "executed? (call log), verdict",
         "exhaustive": True,
         "explanation": "exhaustive: all guard lists of length <= 2 (quick) / <= 3 (thorough) over {onlyif,skipif} x 4 labels x all 16 label subsets x 3 record kinds x engine name set/empty",
     },
     "C15": {
         "runs": [{"profile": "c15", "n_quick": 6000, "n_thorough": 200000, "oracle": "c15"},
-                 {"profile": "climulti", "kind": "cli", "n_quick": 25, "n_thorough": 400, "nontrivial": "any"}],
+                 {"profile": "climulti", "kind": "cli", "n_quick": 25, "n_thorough": 400, "nontrivial": "any"},
+                 {"profile": "c17lib", "n_quick": 300, "n_thorough": 10000, "nontrivial": "any"}],
         "observable": "verdict against an expectation holding the reference digest computed by the harness with the md-5 crate on the reference value order",
         "trusted": ["md-5 crate as the reference MD5 (Md5.lean is compared against it through every hashed case and #guard-ed on the RFC 1321 vectors)"],
     },
